@@ -620,6 +620,71 @@ where
     }
 }
 
+//
+// verification hooks
+//
+#[cfg(mini_moka_verif)]
+impl<K, V, S> Cache<K, V, S>
+where
+    K: Hash + Eq + Send + Sync + 'static,
+    V: Clone + Send + Sync + 'static,
+    S: BuildHasher + Clone + Send + Sync + 'static,
+{
+    /// Replaces the time source of this cache with a mock clock.
+    pub fn verif_set_clock(&self, clock: &crate::verif::MockClock) {
+        self.base.verif_set_clock(clock);
+    }
+
+    /// Installs (or removes) a callback receiving maintenance events.
+    pub fn verif_set_tracer(&self, tracer: Option<crate::verif::Tracer<K>>) {
+        self.base.verif_set_tracer(tracer);
+    }
+
+    /// Visits every entry physically held by the hash map.
+    pub fn verif_visit_entries(&self, f: impl FnMut(&K, &V, crate::verif::EntryMeta)) {
+        self.base.verif_visit_entries(f);
+    }
+
+    /// Walks a deque; `None` if the deques mutex is currently held.
+    pub fn verif_dump_deque(
+        &self,
+        which: usize,
+        visit: impl FnMut(&K),
+    ) -> Option<crate::verif::DequeDump> {
+        self.base.verif_dump_deque(which, visit)
+    }
+
+    /// The popularity estimate the admission policy would use for `key`.
+    pub fn verif_freq<Q>(&self, key: &Q) -> u8
+    where
+        Arc<K>: Borrow<Q>,
+        Q: Hash + Eq + ?Sized,
+    {
+        self.base.verif_freq(self.base.hash(key))
+    }
+
+    pub fn verif_hash<Q>(&self, key: &Q) -> u64
+    where
+        Arc<K>: Borrow<Q>,
+        Q: Hash + Eq + ?Sized,
+    {
+        self.base.hash(key)
+    }
+
+    pub fn verif_sketch_state(&self) -> crate::verif::SketchState {
+        self.base.verif_sketch_state()
+    }
+
+    pub fn verif_valid_after(&self) -> Option<std::time::Instant> {
+        self.base.verif_valid_after()
+    }
+
+    /// (read channel length, write channel length)
+    pub fn verif_channel_lens(&self) -> (usize, usize) {
+        self.base.verif_channel_lens()
+    }
+}
+
 // To see the debug prints, run test as `cargo test -- --nocapture`
 #[cfg(test)]
 mod tests {
